@@ -253,6 +253,8 @@ def check(run):
     run.guard(r_ring, funcs)
     run.guard(cell_bounds, funcs)
     run.guard(epos6_extension, funcs, 1 if run.tier == 'quick' else 2)
+    from . import C19
+    run.guard(C19.sphere_contains, funcs, 'C20')     # the membership test the bounding-sphere solvers recurse on (any length scale)
     run.assume('the kNN ring loop with its heap, Welzl recursion/minimality and Epos6 extremal-point selection are not encoded')
     run.assume('f64 read as exact reals; f64::INFINITY read as a symbolic bound larger than 1e9 with |inputs| <= 1e6')
     return run.finish(LEVEL, EXPLANATION, trusted=['rustc -Zunpretty=mir', 'z3 5.1.0 / 4.8.12, cvc5 1.0.3', 'glam / std models of mirsym'])
@@ -260,6 +262,9 @@ def check(run):
 
 def replay(path):
     d = json.load(open(path))
+    if d['kind'] == 'sphere_contains':
+        from . import C19
+        return C19.replay(path)
     f = {'space_cells': check_space_cells_native, 'cell_min_distance': check_cell_min_distance_native, 'epos6_spheres': check_epos6_native}[d['kind']]
     bad = f(d)
     print(bad)
